@@ -59,7 +59,7 @@ def draw_game(st, tier, like=None):
     a_out, b_out = st.int_range(1, mx), st.int_range(1, mx)
     a_in, b_in = st.weighted([(2, 4), (1, 2), (3, 2)]), st.weighted([(2, 4), (1, 2), (3, 2)])
     if fam == "seesaw":
-        b_out = st.weighted([(2, 4), (3, 1)]) if tier == "thorough" else 2
+        b_out = st.weighted([(2, 4), (3, 1)]) if tier == "thorough" else st.weighted([(2, 11), (3, 1)])
         r = b_out
         a_out = max(a_out, 1)
     elif fam == "classical_ref":
